@@ -210,6 +210,12 @@ def diagrams(thorough: bool):
     for ta, tb in itertools.product(types, repeat=2):
         for e in two:
             yield (ta, tb), e
+    # deeper collections: operands with up to three collection axes of different depth, directly and through a node without collection axes
+    # (the epsilon tensor of join / meet): the alignment of collection axes from the right must not depend on the order of the operands
+    for k, c in ((3, 2), (2, 3), (3, 1), (1, 3), (3, 3), (2, 2), (3, 0), (0, 3)):
+        yield ((k, 1, 0), (c, 0, 1)), ((0, 1),)
+        yield ((k, 1, 0), (0, 0, 2), (c, 1, 0)), ((0, 1), (2, 1))
+        yield ((0, 2, 0), (k, 0, 1), (c, 0, 1)), ((0, 1), (0, 2))
     pick = types if thorough else types[:8]
     for ta, tb, tc in itertools.product(pick, repeat=3):
         if not thorough and (ta[0] + tb[0] + tc[0] > 1):
